@@ -36,7 +36,7 @@ def gen(rng, index, tier):
         sch = common.family_scheme(rng, rng.choice(["unifying", "unifying", "induced", "unifying_half", "grid"]))
     elif config[0] in ("bioconsert", "bioco", "kwik", "copeland"):
         # local search / heuristics: also schemes whose scores differ by less than the 0.001 tolerances
-        sch = lib.gen_scheme(rng, family=rng.choice(["preset", "grid", "preset_mult", "zeroheavy", "fine", "fine", "cheap_ties"]))
+        sch = lib.gen_scheme(rng, family=rng.choice(["preset", "grid", "preset_mult", "zeroheavy", "fine", "fine", "cheap_ties", "large"]))
     else:
         sch = lib.gen_scheme(rng, family=rng.choice(["preset", "grid", "grid", "preset_mult", "zeroheavy", "cheap_ties"]))
     if config[0] in ("parcons", "exact", "cplex", "pulp", "paper") and rng.random() < 0.15:
@@ -51,6 +51,9 @@ def gen(rng, index, tier):
             r = ([[a] for a in alpha] + r) if rng.random() < 0.8 else (r + [[a] for a in alpha])
             raw.append(r)
         meta = {"family": "mixed_cycle", "kind": "str_mixed", "n": len(cyc) + len(alpha), "m": len(raw)}
+    if config[0] == "pickaperm" and rng.random() < 0.4:
+        # names containing the delimiters of the textual form (str(ranking) is then ambiguous), repeated rankings
+        raw, meta = lib.gen_dataset(rng, nmax=5, mmax=5, family=rng.choice(["complete", "dup"]), kind="str_delim", nmin=3)
     amo = rng.random() < 0.5
     if config[0] in ("exact", "cplex") and config[1] == 1:
         amo = True  # optimize=True with all rankings requested is a documented IncompatibleArgumentsException
@@ -58,6 +61,10 @@ def gen(rng, index, tier):
         # all optima through the stand-in's no-good cuts: one CBC call per optimum, keep the universe tiny
         raw, meta = lib.gen_dataset(rng, nmax=4, mmax=4)
     case = {"dataset": raw, "scheme": sch, "config": config, "amo": amo, "meta": meta}
+    if rng.random() < 0.15:
+        # the dataset has a past: derived objects were requested, then elements were removed in place
+        els = lib.dataset_elems(raw)
+        case["prehistory"] = [["unified"], ["run_borda"], ["remove", [e for e in els if rng.random() < 0.3]]]
     if standin:
         case["cplex"] = "standin"
     return case
@@ -90,6 +97,20 @@ def run_case(case):
 def impl(case):
     try:
         ds, sch, coder, obs, s = common.prep(case)
+        for op in case.get("prehistory", []):
+            try:
+                if op[0] == "unified":
+                    ds.unified_rankings()
+                    ds.unified_dataset()
+                elif op[0] == "run_borda":
+                    from corankco.algorithms.borda.borda import BordaCount
+                    from corankco.scoringscheme import ScoringScheme
+                    BordaCount().compute_consensus_rankings(ds, ScoringScheme.get_unifying_scoring_scheme())
+                elif op[0] == "remove":
+                    ds.remove_elements(set(lib.conv_like_dataset(ds, [op[1]])[0]))
+            except Exception:  # noqa: BLE001  (a removal that would empty the dataset is refused: dataset unchanged)
+                pass
+        obs = lib.observe_dataset(ds, coder)
         out = {"obs": obs}
         alg = algos.make(case["config"])
         cons_obj = None
@@ -153,6 +174,8 @@ def judge(case, out, answers):
     raw = case["dataset"]
     n = len(lib.dataset_elems(raw))
     nontrivial = n >= 3 and any(sum(len(b) for b in r) < n for r in raw)
+    if case.get("prehistory"):
+        tags.append("dataset-with-a-past")
     return {"agree": True, "holds": holds, "diff": diff, "nontrivial": nontrivial, "tags": tags}
 
 
